@@ -1,6 +1,7 @@
 package main
 
-// Surfaces a (before / during the encryption handshake) and b (after a real handshake):
+// Surfaces a (before / during the encryption handshake; e, the same with the node as the
+// dialling side, is in dial.go) and b (after a real handshake):
 // the attacker owns one end of a net.Pipe, the node's real code owns the other end and is
 // run in exactly the goroutine structure p2p.Server uses: HandleConn (NewPeer, DoHandshake
 // as server, close on error) in one goroutine, then Peer.Run (heartbeat loop + read loop)
@@ -10,6 +11,7 @@ import (
 	"bytes"
 	"crypto/aes"
 	"crypto/cipher"
+	"crypto/elliptic"
 	"crypto/rand"
 	"encoding/binary"
 	"encoding/hex"
@@ -40,14 +42,23 @@ type wireExec struct {
 	nodeKey fx.Key
 	nodeID  p2p.NodeID
 	attKey  fx.Key
+	attID   p2p.NodeID
 	gm      *gorMon
 }
 
 func newWireExec(s Sink) *wireExec {
 	x := &wireExec{s: s, nodeKey: fx.NewKey("c15-node", 0), attKey: fx.NewKey("c15-attacker", 0)}
 	copy(x.nodeID[:], x.nodeKey.NodeID)
+	copy(x.attID[:], x.attKey.NodeID)
+	if err := eciesSelfTest(x.nodeKey.Priv); err != nil {
+		s.Inconclusive(err.Error())
+	}
+	if err := x.checkWireConstants(); err != nil {
+		s.Inconclusive(err.Error())
+	}
 	// warm up lazily initialised globals (curve tables, metrics) so that they are not charged to the first case
 	x.exchange(nil, nil)
+	x.exchangeDial(nil, nil)
 	x.gm = newGorMon()
 	return x
 }
@@ -150,6 +161,57 @@ func (x *wireExec) materialise(w *WireScript, key []byte, limit int64) ([]byte, 
 				return nil, err
 			}
 			body = ct
+		case "ecies-raw":
+			// MAC-valid (or Mac-chosen) envelope whose encrypted part is exactly the given bytes
+			em := segBytes(f.Plain)
+			if f.Payload != nil {
+				em = append(em, f.Payload.bytes()...)
+			}
+			rp, _ := x.nodeID.PubKey()
+			ct, err := eciesRaw(rp, em, f.Mac)
+			if err != nil {
+				return nil, err
+			}
+			body = ct
+		case "resp", "resp-mut":
+			// the response of a listener to the node's hello: [RandomPubKey(64), RespNonce(32)] encrypted to the
+			// dialler; resp-mut: items of Payload.Tree replace the valid ones (empty non-list item = keep)
+			eph, err := ecies.GenerateKey(rand.Reader, crypto.S256(), nil)
+			if err != nil {
+				return nil, err
+			}
+			nonce := make([]byte, 32)
+			_, _ = rand.Read(nonce)
+			items := []*Node{nB(elliptic.Marshal(crypto.S256(), eph.PublicKey.X, eph.PublicKey.Y)[1:]), nB(nonce)}
+			if f.Kind == "resp-mut" && f.Payload != nil && f.Payload.Tree != nil {
+				var kept []*Node
+				for i, ch := range f.Payload.Tree.L {
+					switch {
+					case ch.Drop:
+						if i < len(items) {
+							items[i] = nil
+						}
+					case ch.isList() || ch.B != "" || ch.Rnd > 0 || ch.Fill > 0 || ch.Empty:
+						if i < len(items) {
+							items[i] = ch
+						} else {
+							items = append(items, ch)
+						}
+					}
+				}
+				for _, it := range items {
+					if it != nil {
+						kept = append(kept, it)
+					}
+				}
+				items = kept
+			}
+			rp, _ := x.nodeID.PubKey()
+			ct, err := ecies.Encrypt(rand.Reader, ecies.ImportECDSAPublic(rp), nL(items...).enc(), nil, nil)
+			if err != nil {
+				return nil, err
+			}
+			body = ct
 		case "aes":
 			if key == nil {
 				return nil, fmt.Errorf("aes frame before the handshake")
@@ -224,12 +286,14 @@ type srvSide struct {
 	codes    sync.Map
 }
 
-func (x *wireExec) serve(sconn net.Conn) *srvSide {
+// remote == nil: the node is the listener (Server.listenLoop -> HandleConn(fd, nil)); otherwise
+// it is the dialler (DialManager.runDialTask -> HandleConn(conn, nodeID)).
+func (x *wireExec) serve(sconn net.Conn, remote *p2p.NodeID) *srvSide {
 	sv := &srvSide{hsErr: make(chan error, 1), runDone: make(chan struct{}), consumed: make(chan struct{})}
 	sv.peer = p2p.NewPeer(sconn)
 	go func() {
 		// Server.HandleConn
-		err := sv.peer.DoHandshake(x.nodeKey.Priv, nil)
+		err := sv.peer.DoHandshake(x.nodeKey.Priv, remote)
 		if err != nil {
 			_ = sconn.Close()
 			sv.hsErr <- err
@@ -279,7 +343,7 @@ func (x *wireExec) exchange(cs *Case, wit interface{}) {
 		surface = cs.S
 	}
 	cconn, sconn := net.Pipe()
-	sv := x.serve(sconn)
+	sv := x.serve(sconn, nil)
 	var nodeClosed int32
 	drained := make(chan struct{})
 	var received int64
@@ -331,35 +395,7 @@ func (x *wireExec) exchange(cs *Case, wit interface{}) {
 	}
 	// write in chunks; a write fails as soon as the node closed its end
 	a := startAlloc() // from here on the harness allocates nothing of size
-	sent := int64(0)
-	ci, nw := 0, 0
-	for off := 0; off < len(stream); {
-		n := len(stream) - off
-		if len(script.Chunks) > 0 {
-			c := script.Chunks[ci%len(script.Chunks)]
-			ci++
-			if c < 1 {
-				c = 1
-			}
-			if c < n {
-				n = c
-			}
-		}
-		if nw%512 == 0 { // arming the deadline allocates a timer: not for every two-byte write
-			_ = cconn.SetWriteDeadline(time.Now().Add(wireWatchdog))
-		}
-		nw++
-		m, err := cconn.Write(stream[off : off+n])
-		sent += int64(m)
-		off += m
-		if err != nil {
-			if ne, ok := err.(net.Error); ok && ne.Timeout() {
-				x.s.Violation("C15/node-unresponsive:"+surface+":stops-reading-without-closing",
-					fmt.Sprintf("the node neither read nor closed the connection for %v", wireWatchdog), wit)
-			}
-			break
-		}
-	}
+	sent := x.writeChunks(cconn, stream, script.Chunks, surface, wit)
 	stream = nil
 	// what does the node do with it?
 	outcome := "kept"
@@ -431,6 +467,41 @@ func (x *wireExec) exchange(cs *Case, wit interface{}) {
 	checkAlloc(x.s, surface, a, len(script.Frames), sent, atomic.LoadInt64(&received), wit)
 }
 
+// writeChunks writes the stream in the script's write sizes; a write fails as soon as the
+// node closed its end. It returns the number of bytes the node took.
+func (x *wireExec) writeChunks(cconn net.Conn, stream []byte, chunks []int, surface string, wit interface{}) int64 {
+	sent := int64(0)
+	ci, nw := 0, 0
+	for off := 0; off < len(stream); {
+		n := len(stream) - off
+		if len(chunks) > 0 {
+			c := chunks[ci%len(chunks)]
+			ci++
+			if c < 1 {
+				c = 1
+			}
+			if c < n {
+				n = c
+			}
+		}
+		if nw%512 == 0 { // arming the deadline allocates a timer: not for every two-byte write
+			_ = cconn.SetWriteDeadline(time.Now().Add(wireWatchdog))
+		}
+		nw++
+		m, err := cconn.Write(stream[off : off+n])
+		sent += int64(m)
+		off += m
+		if err != nil {
+			if ne, ok := err.(net.Error); ok && ne.Timeout() {
+				x.s.Violation("C15/node-unresponsive:"+surface+":stops-reading-without-closing",
+					fmt.Sprintf("the node neither read nor closed the connection for %v", wireWatchdog), wit)
+			}
+			break
+		}
+	}
+	return sent
+}
+
 func trimErr(e error) string {
 	s := e.Error()
 	s = reHexNum.ReplaceAllString(s, "0x?")
@@ -443,7 +514,11 @@ func trimErr(e error) string {
 
 func (x *wireExec) exec(cs Case) {
 	wit := map[string]interface{}{"case": cs}
-	x.exchange(&cs, wit)
+	if cs.S == "e" {
+		x.exchangeDial(&cs, wit)
+	} else {
+		x.exchange(&cs, wit)
+	}
 	nt := cs.Wire != nil && (len(cs.Wire.Frames) > 0)
 	x.s.Case(cs.S+"/"+cs.Kind, nt, cs)
 }
